@@ -87,18 +87,25 @@ def r2(ctx):
                 want = not (nr >= mx)
                 ctx.check("C18.R2", got == {want}, key(f, "recycle|%s|%s" % (nr, mx)), site(f, t), "after request %d of max %d `alive` is %s, required %s (%s)" % (
                     nr, mx, sorted(map(str, got)), want, "the limit-reaching request must be the last" if not want else "not yet at the limit"), "alive=%s" % want)
-        # keep-alive capable workers also close the connection of the last request
+        # keep-alive capable workers: whenever `alive` is (found or made) false before the app runs, the response is forced
+        # to `Connection: close` -- for the limit-reaching request AND for every other connection of the retiring worker
         if f.qualname in SIBLINGS[1:]:
             rv, _ = resp_var(repo, f)
             fc = [n for c in method_calls(f, "force_close") if tail(c.func.value) == rv for n in nodes_with(f, c)]
-            okk = False
-            for t in [x for x in g.tests() if isinstance(x.ast, ast.Attribute) and x.ast.attr == "alive"] + tests:
-                lab = "false" if isinstance(t.ast, ast.Attribute) else "true"
-                r = g.reachable([(t, lab)], without_nodes=fc, follow_exc=False)
-                if fc and not any(a in r for a in apps):
-                    okk = True
-            ctx.check("C18.R2", okk, key(f, "last-request-closes"), site(f), "when the worker stops accepting (`alive` false) the response is not forced to `Connection: close`: the client would reuse a connection to a dying worker",
-                      "force_close when not alive")
+            starts = [(t, "false") for t in g.tests() if isinstance(t.ast, ast.Attribute) and t.ast.attr == "alive"]
+            clears = [s for s in g.stmts(ast.Assign) if any(isinstance(t, ast.Attribute) and t.attr == "alive" for t in s.ast.targets) and const(s.ast.value, NO) is False]
+            bad = None
+            for st in [t for t, _ in starts] + clears:
+                # path-sensitive in `alive`: the evaluator carries alive=False from the test / the store onwards
+                ex = Explorer(f)
+                env0 = {"self.alive": False} if st.kind == "test" else {"self.alive": True}
+                outs = ex.run(st, env0, stop=lambda n: n in apps, watch=dict((n.id, "force_close") for n in fc))
+                for o in outs:
+                    if o.kind == "stop" and "force_close" not in o.events and o.env.get("self.alive") is False:
+                        bad = st
+            ctx.check("C18.R2", bool(fc) and bool(starts) and bad is None, key(f, "not-alive-closes"), site(f, (bad[0] if isinstance(bad, tuple) else bad) if bad else None),
+                      "the application can be called with `alive` false without the response having been forced to `Connection: close`: keep-alive connections of a worker that reached "
+                      "max_requests (or was told to stop) keep being served by it instead of moving to its replacement", "force_close whenever alive is false")
 
 
 def r3(ctx):
